@@ -232,7 +232,20 @@ func (p *VipnodePool) Update(ctx context.Context, sig string, nodeID string, non
 		}
 	}
 
-	nodeBalance, err := p.BalanceManager.OnUpdate(nodeBeforeUpdate, active)
+	var nodeBalance store.Balance
+	if manager, ok := p.BalanceManager.(interface {
+		OnUpdateUntil(node store.Node, until time.Time, peers []store.Node) (store.Balance, error)
+	}); ok {
+		// Bill up to the check-in time the store has just recorded (which
+		// the next update is billed from), not up to a second clock reading.
+		checkedIn, getErr := p.Store.GetNode(store.NodeID(nodeID))
+		if getErr != nil {
+			return nil, getErr
+		}
+		nodeBalance, err = manager.OnUpdateUntil(nodeBeforeUpdate, checkedIn.LastSeen, active)
+	} else {
+		nodeBalance, err = p.BalanceManager.OnUpdate(nodeBeforeUpdate, active)
+	}
 	if err != nil {
 		if _, ok := err.(balance.LowBalanceError); ok {
 			disconnectErr := p.disconnectPeers(ctx, nodeID, active)
